@@ -228,6 +228,18 @@ def gen_case(rng, max_days):
         ld = dt.date.fromisoformat(sorted(cfg['market']['late'].values())[0])
         if rng.random() < 0.5 and ld - dt.timedelta(days=1) >= d0:
             T = ld - dt.timedelta(days=rng.randint(1, min(5, (ld - d0).days)))
+    if rng.random() < 0.2:
+        # a market with one-session crashes / spikes, half of which are undone the next day: the cut day is the day of such
+        # a move (whether it "was real" is only known tomorrow)
+        cfg['market']['jumps'] = cfg['market'].get('jumps') or {'p': 0.12, 'size': rng.choice([0.4, 0.6, 0.75])}
+        spikes = []
+        for sym_, rows_ in market.build_rows(cfg['market']).items():
+            cl = [(r_['date'], r_['close']) for r_ in rows_ if r_['close'] is not None]
+            for (da, ca), (db, cb), (dc, cc) in zip(cl, cl[1:], cl[2:]):
+                if (cb > 1.5 * ca or cb < ca / 1.5) and abs(cc - ca) < 0.2 * ca and d0 <= dt.date.fromisoformat(db) <= d1:
+                    spikes.append(db)
+        if spikes:
+            T = dt.date.fromisoformat(rng.choice(sorted(set(spikes))))
     kind = rng.choice(REWRITES)
     if cfg.get('market2') and rng.random() < 0.6:
         kind = rng.choice(['remove_all', 'delete'])      # how far each vendor's files reach differs between the worlds
